@@ -1,3 +1,128 @@
-import RlibModel.Model.Common
-/-! Line-protocol driver for engine `io` (stub: to be written by the engine's author). -/
-def main : IO Unit := pure ()
+import RlibModel.Model.Reader
+/-!
+Line-protocol driver for engine `io`, reader half (property C08).
+
+Case line:  `<BUF> <hex input|-> <schedule|-> ; <op> ; <op> ; …`
+* schedule: comma separated `K` (data chunk of up to K bytes), `i` (Interrupted), `KxN` / `ixN`
+  (N repetitions); after the schedule all remaining data is one chunk; chunk items met when no data
+  is left are skipped.
+* ops: `r:<atom>`, `t:<atom>,<atom>…` (2..8), `v:<n>:<atom>[,<atom>…]`, `line`, `lines`, `eof`;
+  atoms `i8 … usize`, `str`, `chr`.
+Answer: `M <results> | V <results> | S <spec results or any>`; the model runs on the event list with
+the given BUF, the spec on the plain input bytes.
+-/
+open Rlib Rlib.Reader
+
+namespace IoDrv
+
+def hexVal (c : Char) : Option Nat :=
+  if '0' ≤ c ∧ c ≤ '9' then some (c.toNat - 48)
+  else if 'a' ≤ c ∧ c ≤ 'f' then some (c.toNat - 87)
+  else none
+
+def parseHexBytes (s : String) : Option (List UInt8) :=
+  if s = "-" then some [] else
+  let rec go : List Char → Array UInt8 → Option (List UInt8)
+    | [], acc => some acc.toList
+    | [_], _ => none
+    | a :: b :: t, acc =>
+      match hexVal a, hexVal b with
+      | some x, some y => go t (acc.push (UInt8.ofNat (x * 16 + y)))
+      | _, _ => none
+  go s.toList #[]
+
+def hexDigitChar (d : Nat) : Char := if d < 10 then Char.ofNat (48 + d) else Char.ofNat (87 + d)
+
+def hexOfBytes (bs : List UInt8) : String :=
+  String.ofList (bs.foldr (fun b acc => hexDigitChar (b.toNat / 16) :: hexDigitChar (b.toNat % 16) :: acc) [])
+
+/-- schedule item: `none` = Interrupted, `some k` = chunk of up to `k` bytes; with a repetition count -/
+def parseItem (s : String) : Option (Option Nat × Nat) :=
+  let (body, cnt) := match s.splitOn "x" with
+    | [b] => (b, some 1)
+    | [b, n] => (b, n.toNat?)
+    | _ => (s, none)
+  match cnt with
+  | none => none
+  | some 0 => none
+  | some n =>
+    if body = "i" then some (none, n)
+    else match body.toNat? with
+      | some 0 => none
+      | some k => some (some k, n)
+      | none => none
+
+def parseSched (s : String) : Option (List (Option Nat × Nat)) :=
+  if s = "-" then some [] else (s.splitOn ",").mapM parseItem
+
+def parseAtom (s : String) : Option Atom :=
+  if s = "str" then some .str
+  else if s = "chr" then some .chr
+  else (IntTy.parse? s).map .int
+
+def parseAtoms (s : String) : Option (List Atom) := (s.splitOn ",").mapM parseAtom
+
+def parseOp (s : String) : Option Op :=
+  if s = "line" then some .line
+  else if s = "lines" then some .lines
+  else if s = "eof" then some .eof
+  else match s.splitOn ":" with
+    | ["r", a] => (parseAtom a).map .read
+    | ["t", as] => match parseAtoms as with
+      | some l => if 2 ≤ l.length ∧ l.length ≤ 8 then some (.tuple l) else none
+      | none => none
+    | ["v", n, as] => match n.toNat?, parseAtoms as with
+      | some n, some l => if 1 ≤ l.length ∧ l.length ≤ 8 then some (.vec l n) else none
+      | _, _ => none
+    | _ => none
+
+def showVal : Val → String
+  | .int v => toString v
+  | .str bs => "s" ++ hexOfBytes bs
+  | .chr c => "c" ++ hexOfBytes [c]
+
+def showRow (vs : List Val) : String :=
+  match vs with
+  | [v] => showVal v
+  | vs => "(" ++ ",".intercalate (vs.map showVal) ++ ")"
+
+def showOut : Out → String
+  | .val v => showVal v
+  | .tup vs => "(" ++ ",".intercalate (vs.map showVal) ++ ")"
+  | .vec rows => "[" ++ ",".intercalate (rows.map showRow) ++ "]"
+  | .line none => "none"
+  | .line (some l) => "L" ++ hexOfBytes l
+  | .lines ls => "lines[" ++ ",".intercalate (ls.map (fun l => "L" ++ hexOfBytes l)) ++ "]"
+  | .bool b => showBool b
+
+def showRes : Res → String
+  | .out o => showOut o
+  | .panic e => e.toString
+  | .undef => "undef"
+
+def showTrace (rs : List Res) : String :=
+  if rs.isEmpty then "-" else " ".intercalate (rs.map showRes)
+
+def invalid : String := answer3 "INVALID" "INVALID" "any"
+
+def handle (line : String) : String :=
+  match splitOps line with
+  | [] => badLine line
+  | hdr :: ops =>
+    match tokens hdr with
+    | [bufS, hexS, schedS] =>
+      match bufS.toNat?, parseHexBytes hexS, parseSched schedS, ops.mapM parseOp with
+      | some BUF, some input, some sched, some script =>
+        if BUF = 0 then invalid else
+        let src := mkEvents sched input #[]
+        let fuel := input.length + 1
+        let m := showTrace (runScript fuel script (init BUF src))
+        let spec := specScript script input
+        let s := if spec.contains .undef then "any" else showTrace spec
+        answer m s
+      | _, _, _, _ => invalid
+    | _ => invalid
+
+end IoDrv
+
+def main : IO Unit := driverMain IoDrv.handle
